@@ -99,12 +99,23 @@ def enc(detector, p0=0.0, p1=0.0, p2=0.0, nslots=1, sleep_scale=0.0, sleep_mult=
     geo = detector.geometry
     detector.pixel.array = np.full((geo.row, geo.col), float(code))
     detector.signal.array = np.full((geo.row, geo.col), float(mem))
+    _aux(detector, float(code), total)
     if sleep_scale:
         if slow_sum is not None:
             s = sleep_scale if total == int(slow_sum) else 0.0
         else:
             s = sleep_scale * ((int(sleep_mult) * total) % 5) / 4.0
         time.sleep(s)
+
+
+def _aux(detector, code, total):
+    """the same code in one more bucket (photon), so that a result whose buckets are mixed up between runs or
+    between variables is visible"""
+    geo = detector.geometry
+    try:
+        detector.photon.array = np.full((geo.row, geo.col), float(code))
+    except Exception:  # noqa: BLE001  (a detector type without this bucket)
+        pass
 
 
 def encs(detector, ident=0, slots="", a=0.0, b=0.0, c=0.0, d=0.0, sleep_scale=0.0, sleep_mult=1, slow_sum=None):
@@ -139,6 +150,10 @@ def encs(detector, ident=0, slots="", a=0.0, b=0.0, c=0.0, d=0.0, sleep_scale=0.
         sig[:, int(slot)] = float(mem)
     detector.pixel.array = pix
     detector.signal.array = sig
+    try:
+        detector.photon.array = pix.copy()
+    except Exception:  # noqa: BLE001
+        pass
     if sleep_scale:
         if slow_sum is not None:
             s = sleep_scale if total == int(slow_sum) else 0.0
